@@ -295,4 +295,78 @@ def wfDiag (t : ModTable) : String × String :=
       else if !nodupB m.ids then ("duplicate-identifier", m.name)
       else ("undefined-module-or-instance", m.name)
 
+
+/-! ## identifiers built by `__`-joining user names (flattened wires, instance names) and struct type names:
+well-formedness of the user names
+
+Written from
+* `VStructuralTranslatorL3.rtlir_tr_interface_decl` (`f"{ifc_id}__{tr['id']}"`, nested interfaces
+  `f'{port_id}__{name}'`), `VStructuralTranslatorL4.rtlir_tr_subcomp_decl` (wire `f"{c_id}__{dscp['id']}"`, instance
+  `c_id + '__' + str(idx)` per list dimension), `rtlir_tr_subcomp_ifc_port_decl` (`f'{ifc_id}__{port_id}'`);
+* `YosysStructuralTranslatorL1.port_gen` / `_port_conn_gen` (`f"{id_}__{idx}"` per list dimension),
+  `YosysStructuralTranslatorL2.struct_gen` / `wire_struct_gen` (`id_+"__"+name` per field), `_packed_gen`
+  (`f"{id_}__{i}"`), and the L3 / L4 twins of the Verilog backend;
+* `NamedObject.__setattr_for_elaborate__` (`if name[0] != '_'`: an attribute whose name starts with `_` is never a
+  hardware object), Python identifiers (never empty, never start with a digit).
+
+Every identifier of a module scope that stands for a hardware object is `"__".join(segments)` where a segment is a
+user name (port, wire, interface, sub-component, struct field) or a decimal list index. -/
+
+/-- one step of the path of a hardware object below its component -/
+inductive Seg where
+  | name (s : String)
+  | idx (i : Nat)
+deriving DecidableEq, Repr, Inhabited
+
+def Seg.str : Seg → String
+  | .name s => s
+  | .idx i => toString i
+
+/-- the identifier a path is declared under -/
+def flatId (p : List Seg) : String := "__".intercalate (p.map Seg.str)
+
+/-- `__` occurs in the character list -/
+def hasDunderL : List Char → Bool
+  | [] => false
+  | c :: r => (c == '_' && r.head? == some '_') || hasDunderL r
+
+/-- **well-formed user name**: not empty, does not start with `_` or a digit, contains no `__`.
+(A trailing `_` is allowed: `in_`, `type_`.) -/
+def okNameL (s : List Char) : Bool :=
+  match s with
+  | [] => false
+  | c :: _ => c != '_' && !c.isDigit && !hasDunderL s
+
+def okName (s : String) : Bool := okNameL s.toList
+
+def Seg.ok : Seg → Bool
+  | .name s => okName s
+  | .idx _ => true
+
+/-- the identifiers that more than one of the given paths is declared under (one entry per declaration) -/
+def flatCollisions (ps : List (List Seg)) : List String :=
+  let ids := ps.map flatId
+  ids.filter (fun x => ids.count x > 1)
+
+/-- a field type whose name can be read back from a struct name: a vector, or a list (at least one dimension) of
+vectors -/
+def DT.flatLeaf : DT → Bool
+  | .vec _ => true
+  | .arr dims (.vec _) => !dims.isEmpty
+  | _ => false
+
+/-- a struct without nested structs whose field names are well formed -/
+def flatStruct (fs : List (String × DT)) : Bool :=
+  !fs.isEmpty && fs.all (fun f => okName f.1 && f.2.flatLeaf)
+
+/-- widths of the vectors a value of the type is made of, first field first (the packed layout) -/
+def DT.leafWidths : DT → List Nat
+  | .vec n => [n]
+  | .struct _ fs => leafWidthsFields fs
+  | .arr dims sub => (List.replicate (dims.foldl (· * ·) 1) sub.leafWidths).flatten
+where
+  leafWidthsFields : List (String × DT) → List Nat
+    | [] => []
+    | (_, t) :: fs => t.leafWidths ++ leafWidthsFields fs
+
 end PV.Names
